@@ -354,17 +354,24 @@ def assemble(template_path, repo=None, learn=False):
     base = load_base(unit)
     new_base = {}
     out_lines, linemap, regions, notes = [], [], [], []
+    prev_tail = ''
     for kind, c in chunks:
         if kind == 'text':
             for l in c:
                 out_lines.append(l); linemap.append((None, False, None))
+            tail = [l for l in c if l.strip()]
+            prev_tail = tail[-1] if tail else ''
             continue
         r = c
         where = '%s (template line %d)' % (r.key, r.tline)
         raw, first_line = extract_raw(repo, r)
         rec = {'function': r.label, 'key': r.key, 'source_file': r.file, 'line': first_line,
                'sha256': sha(raw), 'props': r.opts.get('props', '').split(',') if r.opts.get('props') else props,
-               'mode': r.opts.get('mode', 'verified'), 'changed_since_baseline': False}
+               'mode': 'assumed (external_body: contract trusted, body not verified)'
+                       if (any('verifier::external_body' in l for l in r.lines) or 'verifier::external_body' in prev_tail)
+                       else ('definition' if r.kind in ('struct', 'enum') else 'verified'),
+               'changed_since_baseline': False}
+        prev_tail = ''
         if learn:
             new_base[r.key] = raw
             b_raw = raw
@@ -394,6 +401,12 @@ def assemble(template_path, repo=None, learn=False):
             for line, real in res:
                 out_lines.append(line); linemap.append((r.label, real, r.file if real else None))
         rec['rewrites_applied'] = sorted(set(applied))
+        for rule, pat, repl, flags in r.rws:
+            mm = re.match(r'fn (\w+)\\\(', pat)
+            if mm and mm.group(1) == r.name:
+                m2 = re.match(r'fn (\w+)\(', repl)
+                if m2:
+                    rec['renamed_to'] = m2.group(1)
         rec['notes'] = rnotes
         notes += ['%s: %s' % (r.label, x) for x in rnotes]
         regions.append(rec)
